@@ -39,6 +39,7 @@ type MeasureSchema struct {
 	Tags       []TagSpec // in schema order (families contiguous)
 	Fields     []FieldSpec
 	Shards     uint32
+	Replicas   uint32
 	SegDays    uint32
 	TTLDays    uint32
 	IndexMode  bool
@@ -120,6 +121,7 @@ func (s *MeasureSchema) Install(repo *simmeta.Repo) {
 		Catalog:  commonv1.Catalog_CATALOG_MEASURE,
 		ResourceOpts: &commonv1.ResourceOpts{
 			ShardNum:        s.Shards,
+			Replicas:        s.Replicas,
 			SegmentInterval: &commonv1.IntervalRule{Unit: commonv1.IntervalRule_UNIT_DAY, Num: s.SegDays},
 			Ttl:             &commonv1.IntervalRule{Unit: commonv1.IntervalRule_UNIT_DAY, Num: s.TTLDays},
 		},
